@@ -86,6 +86,9 @@ func cmdCheck(repo, prop, tier string, relock bool, only string, verbose bool) i
 	byName := map[string]*OblResult{}
 	for _, r := range results {
 		byName[r.O.Name] = r
+		if len(r.R.Errors) == len(r.R.Answers) && len(r.R.Errors) > 0 {
+			fmt.Fprintf(os.Stderr, "govc: ENGINE ERROR: every solver rejected the query of %s: %v\n", r.O.Name, r.R.Errors)
+		}
 	}
 	lf := loadLock()
 	locked := lf[prop]
